@@ -822,6 +822,7 @@ pub struct Pair {
 	pub restarts_after_in: u32,
 	/// B was restarted from a manager snapshot taken before it sent the downstream add (monitors newer)
 	pub stale_restart: bool,
+	pub stale_restart_up_inflight: bool,
 	/// B learned the preimage by message and crashed before it reached a manager snapshot or a monitor image
 	pub knowledge_lost: bool,
 }
@@ -885,6 +886,8 @@ pub struct FwdOracle {
 	b_inflight: BTreeSet<(ChannelId, u64)>,
 	/// B's monitor updates per channel index, in hand-out order: (update id, step kinds, debug rendering, durable)
 	b_updates: BTreeMap<usize, Vec<(u64, Vec<String>, String, bool)>>,
+	/// B's asynchronous updates per channel index: (handed out at step, completed at step)
+	b_async_spans: BTreeMap<usize, Vec<(u64, u64, Option<u64>)>>,
 	/// channels of B for which update counting is no longer reliable (closed, or B was restarted)
 	b_updates_unreliable: BTreeSet<usize>,
 	/// distinct revocation secrets delivered to B per channel, in arrival order
@@ -1008,6 +1011,7 @@ impl FwdOracle {
 			b_height: sim.w.nodes[B].best_block_info().1,
 			b_inflight: BTreeSet::new(),
 			b_updates: BTreeMap::new(),
+			b_async_spans: BTreeMap::new(),
 			b_updates_unreliable: BTreeSet::new(),
 			revoke_order_at_b: BTreeMap::new(),
 			durability_checks: 0,
@@ -1150,6 +1154,9 @@ impl FwdOracle {
 							self.b_updates_unreliable.insert(ci);
 						}
 						self.b_updates.entry(ci).or_default().push((id, steps, debug, !in_progress));
+						if in_progress {
+							self.b_async_spans.entry(ci).or_default().push((id, at, None));
+						}
 						if !in_progress {
 							self.check_durability_order(sim, ci)?;
 						}
@@ -1171,6 +1178,9 @@ impl FwdOracle {
 					if let Some(ci) = chan_of(sim, &chan) {
 						if let Some(u) = self.b_updates.get_mut(&ci).and_then(|v| v.iter_mut().find(|u| u.0 == update_id)) {
 							u.3 = true;
+						}
+						if let Some(sp) = self.b_async_spans.get_mut(&ci).and_then(|v| v.iter_mut().rev().find(|u| u.0 == update_id && u.2.is_none())) {
+							sp.2 = Some(at);
 						}
 						self.check_durability_order(sim, ci)?;
 					}
@@ -1224,6 +1234,8 @@ impl FwdOracle {
 						}
 						self.stats.restarts_b += 1;
 						self.b_inflight.clear();
+						// updates still in flight when B stopped never complete in the old process
+						let spans = self.b_async_spans.clone();
 						for ci in 0..sim.chans.len() {
 							self.b_updates_unreliable.insert(ci);
 						}
@@ -1231,6 +1243,11 @@ impl FwdOracle {
 							p.restarts_after_in += 1;
 							if p.down.as_ref().map(|d| snapshot_step < d.t_emit).unwrap_or(false) {
 								p.stale_restart = true;
+								// were monitor updates of the upstream channel in flight when that manager was written? (then the
+								// inbound HTLC may have been parked inside the Channel: monitor_pending_update_adds)
+								if spans.get(&p.up_chan).map(|v| v.iter().any(|(_, a, d)| *a < snapshot_step && d.map(|d| d > snapshot_step).unwrap_or(true))).unwrap_or(false) {
+									p.stale_restart_up_inflight = true;
+								}
 							}
 							if p.learned.is_some() && p.up_fulfill_delivered.is_none() && p.up_claim_onchain.is_none() {
 								p.restart_in_window = true;
@@ -1489,11 +1506,17 @@ impl FwdOracle {
 						return Err(fail(
 							"failed-upstream-while-downstream-claimable",
 							format!(
-								"B sent update_fail_htlc upstream (chan {} id {}) at step {} while the downstream HTLC (chan {} id {}, sent at step {}, delivered: {}) could still be claimed by the next hop: it was not irrevocably removed by a failure (next hop's update_fail covered by its commitment_signed, acknowledged by B, B's new commitment_signed revoked-and-acked) and {}; B restarted from a manager snapshot older than the forward (monitors newer): {}",
-								chan, id, at, d.chan, d.id, d.t_emit, d.delivered, onchain, p.stale_restart
+								"B sent update_fail_htlc upstream (chan {} id {}) at step {} while the downstream HTLC (chan {} id {}, sent at step {}, delivered: {}) could still be claimed by the next hop: it was not irrevocably removed by a failure (next hop's update_fail covered by its commitment_signed, acknowledged by B, B's new commitment_signed revoked-and-acked) and {}; B restarted from a manager snapshot older than the forward (monitors newer): {}, with monitor updates of the upstream channel in flight when it was written: {}",
+								chan, id, at, d.chan, d.id, d.t_emit, d.delivered, onchain, p.stale_restart, p.stale_restart_up_inflight
 							),
 						)
-						.with_key(if p.stale_restart { "failed-upstream-while-downstream-claimable/manager-snapshot-predates-forward" } else { "failed-upstream-while-downstream-claimable" }));
+						.with_key(if p.stale_restart_up_inflight {
+							"failed-upstream-while-downstream-claimable/manager-snapshot-predates-forward/monitor-pending-update-adds"
+						} else if p.stale_restart {
+							"failed-upstream-while-downstream-claimable/manager-snapshot-predates-forward"
+						} else {
+							"failed-upstream-while-downstream-claimable"
+						}));
 					},
 				}
 			},
@@ -1567,6 +1590,7 @@ impl FwdOracle {
 								restart_in_window: false,
 								restarts_after_in: 0,
 								stale_restart: false,
+								stale_restart_up_inflight: false,
 								knowledge_lost: false,
 							},
 						);
